@@ -1002,8 +1002,9 @@ func (f *Frame) lookupOnlyLoopPhi(name string) (SV, bool) {
 }
 
 // lookupFinishedLoopPhi resolves after:NAME inside the annotation of a loop that does not itself carry NAME: the phi
-// named NAME of the latest earlier loop whose head dominates the current loop head and that can be left towards the
-// current head only from its head block (so the head phi is the value the variable has when the loop is left).
+// named NAME of the latest earlier loop whose head dominates the current loop head and that is left towards the
+// current head either from its head block or from a block that precedes the variable's update in the iteration (so
+// the head phi is the value the variable has when the loop is left).
 func (f *Frame) lookupFinishedLoopPhi(name string) (SV, bool) {
 	if f.curHead == nil {
 		return SV{}, false
@@ -1013,29 +1014,49 @@ func (f *Frame) lookupFinishedLoopPhi(name string) (SV, bool) {
 		if h == f.curHead || li.blocks[f.curHead] || !h.Dominates(f.curHead) {
 			continue
 		}
-		okExit := true
+		// blocks other than the head from which the loop can be left towards the current loop
+		var exits []*ssa.BasicBlock
 		for b := range li.blocks {
 			if b == h {
 				continue
 			}
 			for _, s := range b.Succs {
 				if !li.blocks[s] && s != h && blockReaches(s, f.curHead) {
-					okExit = false
+					exits = append(exits, b)
 				}
 			}
-		}
-		if !okExit {
-			continue
 		}
 		for _, ins := range h.Instrs {
 			phi, ok := ins.(*ssa.Phi)
 			if !ok {
 				break
 			}
-			if phi.Comment == name {
-				if _, has := f.vals[phi]; has && (best == nil || h.Index > best.Block().Index) {
-					best = phi
+			if phi.Comment != name {
+				continue
+			}
+			// leaving from such a block is fine when the variable's next value is only computed later in the
+			// iteration (the exiting block strictly dominates the block that defines every back-edge operand)
+			okExit := true
+			for pi, pred := range h.Preds {
+				if !li.blocks[pred] {
+					continue
 				}
+				op := phi.Edges[pi]
+				if op == ssa.Value(phi) {
+					continue
+				}
+				def, isIns := op.(ssa.Instruction)
+				for _, b := range exits {
+					if !isIns || def.Block() == b || !b.Dominates(def.Block()) {
+						okExit = false
+					}
+				}
+			}
+			if !okExit {
+				continue
+			}
+			if _, has := f.vals[phi]; has && (best == nil || h.Index > best.Block().Index) {
+				best = phi
 			}
 		}
 	}
